@@ -4,6 +4,10 @@ import json
 ALL = ["C%02d" % i for i in range(1, 21)]
 # id -> (category, level text, level note, technique, design ref)
 CHECKS = {
+ "C01": ("exploration",
+   "by-construction oracle over generated file pairs: the harness builds A, derives B by an edit script, renders the unified diff in a random accepted header dialect and requires libpatch (in-process) and the real binary (1 in 13 cases, both directions) to produce exactly B resp. A with offset 0 / fuzz 0; a sampled search over a very large input space, not a proof",
+   "trusts the harness's diff renderer (self-checked by an independent exact applier in the regression inputs) and that /dev/null is the spelling of an absent side",
+   "property-based testing: generated (A,B) pairs x context width x merge policy x header dialect; round-trip oracle by construction, in-process and through the binary"),
  "C11": ("exploration",
    "bounded-exhaustive enumeration of all short sequences of meaningful patch lines plus seeded random/mutational inputs, each parsed in-process under catch_unwind with an allocation bound, and a sample pushed through the real binary (as patch file and as series file); shows absence of crashes, oversized allocations and runaway work on everything generated, not for all byte strings",
    "trusts the harness's counting allocator, process isolation of shards, and that the dev-profile build (overflow checks on) is representative",
